@@ -618,30 +618,31 @@ def on_tuple(instance: Instance, ctx: Context) -> JSONArraySchema:
         return JSONArraySchema(items=items_schema)
     else:
         min_items = 0
-        max_items = 0
+        max_items: Optional[int] = 0
         prefix_items = []
         items: Optional[JSONSchema] = None
-        unpack_schema: Optional[JSONSchema] = None
-        unpack_idx = 0
         for arg_idx, arg in enumerate(args, start=1):
             if not is_unpack(arg):
                 min_items += 1
-                if not unpack_schema:
+                if max_items is not None:
+                    max_items += 1
                     prefix_items.append(
                         get_schema(instance.derive(type=arg), ctx)
                     )
             else:
                 unpack_schema = get_schema(instance.derive(type=arg), ctx)
-                unpack_idx = arg_idx
-        if unpack_schema:
-            prefix_items.extend(unpack_schema.prefixItems or [])
-            min_items += unpack_schema.minItems or 0
-            max_items += unpack_schema.maxItems or 0
-            if unpack_idx == len(args):
-                items = unpack_schema.items
-        else:
-            min_items = len(args)
-            max_items = len(args)
+                min_items += unpack_schema.minItems or 0
+                if max_items is None:
+                    continue
+                prefix_items.extend(unpack_schema.prefixItems or [])
+                if unpack_schema.maxItems is None:
+                    # variable-length part: no upper bound and no
+                    # positional schemas for the items that follow it
+                    max_items = None
+                    if arg_idx == len(args):
+                        items = unpack_schema.items
+                else:
+                    max_items += unpack_schema.maxItems
         return JSONArraySchema(
             prefixItems=prefix_items or None,
             items=items,
